@@ -19,6 +19,8 @@ Inductive atom :=
 | ACcs (e : epoch)                         (* ChangeCipherSpec with value 1, under e *)
 | AHb (e : epoch)                          (* heartbeat request *)
 | ANoCert (e : epoch)                      (* SSLv3 no_certificate warning alert *)
+| AUndec (rd : epoch)                      (* a record that does not open under the read keys rd
+                                              (what rejected 0-RTT data looks like) *)
 | AOther.                                  (* anything that is neither a ChangeCipherSpec nor a
                                               Finished message (used by the ordering property) *)
 
@@ -44,6 +46,13 @@ Definition atom_match (a : atom) (s : sym) : bool :=
   | ACcs e, PCcs true => epoch_eqb e ep
   | AHb e, PHb => epoch_eqb e ep
   | ANoCert e, PAlert AWarnNoCert => epoch_eqb e ep
+  | AUndec rd, PBufH _ _ => false
+  | AUndec rd, PBufFrag => false
+  | AUndec rd, PCcs _ => negb (epoch_eqb ep rd) && negb (epoch_eqb ep E0)
+  | AUndec rd, PAlert _ => negb (epoch_eqb ep rd) && (epoch_eqb rd E0 || negb (epoch_eqb ep E0))
+  | AUndec rd, PApp _ => negb (epoch_eqb ep rd) || epoch_eqb rd E0   (* without read keys every
+                                              application_data record looks like early data *)
+  | AUndec rd, _ => negb (epoch_eqb ep rd)
   | AOther, PCcs _ => false
   | AOther, PH Fin _ => false
   | AOther, PBufH Fin _ => false
@@ -58,6 +67,7 @@ Definition atom_eqb (a b : atom) : bool :=
   | ACcs e, ACcs e' => epoch_eqb e e'
   | AHb e, AHb e' => epoch_eqb e e'
   | ANoCert e, ANoCert e' => epoch_eqb e e'
+  | AUndec e, AUndec e' => epoch_eqb e e'
   | AOther, AOther => true
   | _, _ => false
   end.
@@ -191,12 +201,20 @@ Definition g_server12 (c : cfg) : re :=
           when (c_npn c) (msg c E1 NPN AnyA);
           msg c E1 Fin AnyA].
 
+(* RFC 8446 4.2.10: a server that does not accept offered early data skips records that fail
+   deprotection (up to max_early_data): after the first ClientHello until the first record
+   that opens under the handshake keys, or -- with HelloRetryRequest -- until the second
+   ClientHello, and no longer. *)
+Definition early_window (c : cfg) (rd : epoch) : re :=
+  if c_early c then Star (Alt (At (ACcs E0)) (At (AUndec rd))) else Eps.
+
 Definition g_server13 (c : cfg) : re :=
   seqs [(if c_hrr c
          then seqs [msg0 c CH AnyA;
+                    early_window c E0;
                     (* the second ClientHello: CCS and (once offered) heartbeat may precede it *)
                     ign c E0; Star (At (AFrag E0)); At (AMsg E0 CH MustAlign)]
-         else msg0 c CH MustAlign);
+         else seqs [msg0 c CH MustAlign; early_window c E1]);
         (if (c_reqcert c && negb (is_psk c))%bool then
            alts [msg c E1 CertE AnyA;
                  seqs [alts [msg c E1 CertN AnyA; msg c E1 CCert AnyA]; msg c E1 CV AnyA]]
@@ -220,5 +238,8 @@ Definition allowed (c : cfg) (w : list sym) : bool := matches (grammar c) w.
            ChangeCipherSpec records carry no meaning. *)
 Definition ccs_fin_order (c : cfg) : re :=
   if c_v13 c
-  then seqs [Star (alts [At AOther; At (ACcs E0); At (ACcs E1)]); At (AMsg E1 Fin MustAlign)]
+  then seqs [Star (alts ([At AOther; At (ACcs E0); At (ACcs E1)] ++
+                         (* dropped undecryptable records carry no meaning *)
+                         (if c_early c then [At (AUndec E0); At (AUndec E1)] else [])));
+             At (AMsg E1 Fin MustAlign)]
   else seqs [Star (At AOther); At (ACcs E0); Star (At AOther); At (AMsg E1 Fin AnyA)].
